@@ -12,7 +12,11 @@ import (
 )
 
 var (
-	methods = []string{"GET", "GET", "GET", "HEAD", "POST", "PUT", "PATCH", "DELETE", "OPTIONS"}
+	methods = []string{"GET", "GET", "GET", "GET", "HEAD", "HEAD", "POST", "POST", "PUT", "PUT", "PATCH", "PATCH", "DELETE", "DELETE", "OPTIONS", "OPTIONS",
+		// extension methods: any token is a legal method
+		"PROPFIND", "TRACE", "MKCOL", "get", "M-SEARCH"}
+	// body / reply sizes at buffer boundaries (bufio 4 KiB, copy buffer 32 KiB, 64 KiB, 1 MiB)
+	boundarySizes = []int{1, 2, 511, 512, 2047, 2048, 2049, 4095, 4096, 4097, 8192, 32767, 32768, 32769, 65535, 65536, 65537, 1 << 20}
 	// path segments: escaped bytes, sub-delims, non-canonical escapes (%7E, %41), empty and dot segments
 	segPool = []string{"default", "kube-system", "nginx-7d9", "a%20b", "x%25y", "a%2Fb", "q%3Fr", "%C3%A9t%C3%A9", "semi;colon", "com,ma", "k=v", "pl+us", "til~de", "st*ar",
 		"co:lon", "at@x", "ex!cl", "(par)", "'q'", "", ".", "..", "UPPER", "%7Etilde", "%41bc", "h%23ash", "dollar$", "amp&er", "%e4%b8%ad", "sp%20%20ace", "back%5Cslash", "br%5Bk%5D"}
@@ -124,8 +128,14 @@ func genQuery(g *vkit.Rand) (string, string) {
 
 func genBody(g *vkit.Rand, big bool) []byte {
 	switch x := g.Intn(100); {
-	case x < 30:
+	case x < 25:
 		return nil
+	case x < 33:
+		n := g.PickInt(boundarySizes)
+		if !big && n > 70000 {
+			n = 65536
+		}
+		return g.Bytes(n)
 	case x < 75:
 		return g.Bytes(g.Range(1, 2048))
 	case x < 95 || !big:
@@ -148,6 +158,10 @@ type Exchange struct {
 	ClientAE    bool   `json:"clientSentAcceptEncoding"`
 	HostileQ    string `json:"hostileQuery,omitempty"`
 	Upgrade     bool   `json:"upgrade,omitempty"`
+	Boundary    string `json:"boundary,omitempty"`
+	Racing      string `json:"racingConfigEvent,omitempty"`
+	Via         string `json:"via,omitempty"`
+	Route       string `json:"route,omitempty"`
 	EventsPath  bool   `json:"eventsPath,omitempty"`
 	KnownPath   bool   `json:"templatePath,omitempty"`
 	connNamed   map[string]bool
@@ -157,6 +171,7 @@ type Exchange struct {
 // genRequest builds the client's request (without credential / impersonation, which the class adds).
 func genRequest(g *vkit.Rand, id, host string, big bool, path string) *Exchange {
 	x := &Exchange{ID: id, connNamed: map[string]bool{}}
+	freePath := path == "" // classes that depend on the path (events, policy-scoped limits) fix it
 	q := &bed.RawRequest{Method: g.Pick(methods), Host: host}
 	if g.Chance(0.1) {
 		q.Host = host + ":6443"
@@ -178,6 +193,29 @@ func genRequest(g *vkit.Rand, id, host string, big bool, path string) *Exchange 
 		if g.Chance(0.2) { // multi-valued
 			hs = append(hs, bed.RawHeader{Name: wireCase(g, name), Value: g.Pick(hdrVals)})
 		}
+	}
+	switch k := g.Intn(100); {
+	case k < 2: // many header lines
+		for i := 0; i < 80; i++ {
+			hs = append(hs, bed.RawHeader{Name: fmt.Sprintf("X-Many-%d", i%60), Value: fmt.Sprintf("v%d", i)})
+		}
+		x.Boundary = "80-headers"
+	case k < 4: // one very long value
+		hs = append(hs, bed.RawHeader{Name: "X-Long", Value: strings.Repeat("0123456789abcdef", g.PickInt([]int{256, 1024, 3000}))})
+		x.Boundary = "long-header-value"
+	case k < 6 && freePath: // long path
+		q.Target = "/api/v1/namespaces/default/services/svc/proxy/" + strings.Repeat("seg%20ment/", g.PickInt([]int{100, 400})) + "end"
+		if rq != "" {
+			q.Target += "?" + rq
+		}
+		x.Boundary = "long-path"
+	case k < 8 && hostile == "": // long query, many parameters
+		var ps []string
+		for i, m := 0, g.PickInt([]int{150, 600}); i < m; i++ {
+			ps = append(ps, fmt.Sprintf("p%d=%s", i%97, g.Pick(qVals)))
+		}
+		q.Target = path + "?" + strings.Join(ps, "&")
+		x.Boundary = "long-query"
 	}
 	if g.Chance(0.3) {
 		hs = append(hs, bed.RawHeader{Name: wireCase(g, "User-Agent"), Value: g.Pick([]string{"kubectl/v1.18.10 (linux/amd64) kubernetes/62876fc", "curl/7.68.0", "Go-http-client/1.1", "ua üñí"})})
@@ -298,7 +336,13 @@ func genReply(g *vkit.Rand, x *Exchange, big bool) {
 	var body []byte
 	if !noBody {
 		switch v := g.Intn(100); {
-		case v < 15:
+		case v < 12:
+		case v < 20:
+			n := g.PickInt(boundarySizes)
+			if !big && n > 90000 {
+				n = 65536
+			}
+			body = g.Bytes(n)
 		case v < 75:
 			if strings.HasPrefix(ct, "application/json") && g.Bool() {
 				body = []byte(fmt.Sprintf(`{"kind":"Status","apiVersion":"v1","status":"Failure","message":"upstream says %d","code":%d}`, p.Status, p.Status))
